@@ -670,6 +670,9 @@ class Directive:
         self.props = []
         self.anchor_text = None
         self.body_prefix = None
+        self.span_from = None
+        self.span_upto = None
+        self.bytesconst = False
 
 
 def indent_of(sf, tokidx):
@@ -679,8 +682,81 @@ def indent_of(sf, tokidx):
     return m.group(0)
 
 
+def find_seq(sf, a, b, text):
+    """first position in [a,b) where the significant tokens spell `text`; -> (first tok idx, last tok idx)"""
+    want = [t.text for t in lex(text) if t.kind not in TRIVIA]
+    sigidx = [k for k in range(a, b) if sf.toks[k].kind not in TRIVIA]
+    n = len(want)
+    for p in range(0, len(sigidx) - n + 1):
+        if [sf.toks[sigidx[p + q]].text for q in range(n)] == want:
+            return sigidx[p], sigidx[p + n - 1]
+    return None
+
+
+def render_span(d, it, repo_root, registry):
+    """statements of a function body, from the statement starting with `from` up to and including the block
+    statement starting with `upto` (the thread closure body that cannot be named as a function)"""
+    sf = it.sf
+    toks = sf.toks
+    if it.body_open is None:
+        raise ExtractError("anchor lost: span needs a function with a body")
+    f = find_seq(sf, it.body_open, it.body_close, d.span_from or "")
+    if not f:
+        raise ExtractError("anchor lost: span start %r not found in %s" % (d.span_from, it.name))
+    u = find_seq(sf, f[0], it.body_close, d.span_upto or "")
+    if not u:
+        raise ExtractError("anchor lost: span end %r not found in %s" % (d.span_upto, it.name))
+    j = u[1]
+    while j < it.body_close and toks[j].text != "{":
+        if toks[j].text in "([":
+            j = sf.br[j]
+        j += 1
+    end = sf.br[j] + 1
+    ed = Edits()
+    cfg_t, cfg_f = cfg_edits(sf, f[0], end, FEATURES, ed)
+    rule_hits = {}
+    for rule, n in d.rules:
+        rule_hits[rule] = apply_rule(sf, f[0], end, rule, ed)
+        if rule_hits[rule] != n:
+            raise ExtractError("anchor lost: rule %s hit %d times in span of %s, contract expects %d" % (rule, rule_hits[rule], it.name, n))
+    registry.append({"mode": "fn", "file": os.path.relpath(sf.path, repo_root), "item": d.query + " [span]", "name": d.rename or (it.name + "__span"),
+                     "line": toks[f[0]].line, "rules": rule_hits, "cfg_true": cfg_t, "cfg_false": cfg_f, "clauses": [], "canary": False,
+                     "tline": d.tline, "span": True})
+    ind = indent_of(sf, f[0])
+    return [Piece(ind, label="indent")] + render_tokens(sf, f[0], end, ed) + [Piece("\n", label="nl")]
+
+
+def render_bytesconst(d, it, repo_root, registry):
+    """R5: `const NAME: &[u8] = b"..";` -> exec const with its value as a spec sequence generated from the literal"""
+    sf = it.sf
+    toks = sf.toks
+    lit = None
+    for k in range(it.kw, it.end):
+        if toks[k].kind == "str" and toks[k].text.startswith("b\""):
+            lit = toks[k].text
+    if lit is None:
+        raise ExtractError("anchor lost: %s is not a byte-string constant" % it.name)
+    import ast
+    val = ast.literal_eval(lit)
+    seq = ", ".join("%du8" % b for b in val)
+    ind = indent_of(sf, it.first)
+    vis = norm_tokens(toks[it.first:it.kw])
+    text = "%s%s open spec fn %s_spec() -> Seq<u8> { seq![%s] }\n" % (ind, vis, it.name, seq)
+    conj = " && ".join(["m.len() == %d" % len(val)] + ["m[%d] == %du8" % (i, b) for i, b in enumerate(val)])
+    text += "%s%s open spec fn %s_is(m: Seq<u8>) -> bool { %s }\n" % (ind, vis, it.name, conj)
+    text += "%s#[verifier::external_body]\n%s%s exec const %s: &'static [u8]\n%s    ensures %s@ == %s_spec(),\n%s{ %s }\n" % (
+        ind, ind, vis, it.name, ind, it.name, it.name, ind, lit)
+    registry.append({"mode": "item", "file": os.path.relpath(sf.path, repo_root), "item": d.query, "name": it.name, "line": toks[it.first].line,
+                     "rules": {"R5": 1}, "cfg_true": 0, "cfg_false": 0, "clauses": [], "canary": False, "tline": d.tline})
+    return [Piece(text, sf, toks[it.first].start)]
+
+
 def render_item(d, it, repo_root, registry):
     """returns list of Pieces for one matched item under directive d"""
+    if d.mode == "span":
+        return render_span(d, it, repo_root, registry)
+    if d.bytesconst:
+        return render_bytesconst(d, it, repo_root, registry)
     sf = it.sf
     toks = sf.toks
     ed = Edits()
@@ -844,7 +920,7 @@ def render_item(d, it, repo_root, registry):
     return out
 
 
-OPTION_KW = ("ret", "req", "ens", "props", "loop", "closure", "rule", "attr", "dropattr", "canary", "rename", "prefix")
+OPTION_KW = ("ret", "req", "ens", "props", "loop", "closure", "rule", "attr", "dropattr", "canary", "rename", "prefix", "from", "upto", "bytesconst")
 _lab_re = re.compile(r"^(req|ens|inv)(\[([^\]]+)\])?\s+(.*)$", re.S)
 
 
@@ -926,6 +1002,12 @@ def parse_options(d, lines, unit_name):
             d.rename = rest
         elif w == "prefix":
             d.body_prefix = rest
+        elif w == "from":
+            d.span_from = rest
+        elif w == "upto":
+            d.span_upto = rest
+        elif w == "bytesconst":
+            d.bytesconst = True
 
 
 def short_name(query):
@@ -940,7 +1022,7 @@ def short_name(query):
     return "::".join(names[-2:]) if len(names) > 1 else names[-1]
 
 
-_dir_re = re.compile(r"^\s*//@ (include|fn|sig|item|opaque)\s+(\S+)(?:\s+(.*))?$")
+_dir_re = re.compile(r"^\s*//@ (include|fn|sig|item|opaque|span)\s+(\S+)(?:\s+(.*))?$")
 _opt_re = re.compile(r"^\s*//@\s{2,}(.*)$")
 
 
